@@ -114,10 +114,10 @@ def run():
     chk.build_and_audit()
     r = C.rng("C18")
     quick = C.tier() != "thorough"
-    specs = scenarios(r, 80 if quick else 800)
+    specs = scenarios(r, C.T(80, 800))
     fails = D.run_specs(chk, "driver-level stepApi model vs init_search/search_step/finish_search", specs, monitor)
     chk.monitor("step API runs complete", len(specs), fails)
-    n = 44 if quick else 440
+    n = C.T(44, 440)
     pf, pk = paired_stepapi(r, n)
     chk.monitor("paired runs: search() vs step API, all 22 classes", n * 2, pf, pk)
     ff, fk, fn = facade_pairs(r, quick)
